@@ -100,6 +100,21 @@ pub fn atoms() -> Vec<Expr> {
         Rhs::BytesSet(vec![("\u{e9}".as_bytes().to_vec(), BytesForm::Raw(0)), (b"\xc3\xa9".to_vec(), BytesForm::Hex(':')), (b"\xc3".to_vec(), BytesForm::Quoted)]),
     ));
     v.push(Expr::cmp(Lhs::call("concat", vec![a(f("s")), Arg::Lit(Lit::Bytes("\u{e9}".as_bytes().to_vec(), BytesForm::Quoted))]), CmpOp::Ne, strs(b"a")));
+    // an `in $list` comparison nested in the left-hand side of another one, with a field after it
+    v.push(Expr::cmp(
+        Lhs::call(
+            "cat2",
+            vec![
+                a(Lhs::call("pick", vec![a(f("s")), Arg::Logical(Expr::cmp(f("i"), CmpOp::InList, list("a")))])),
+                a(fp("xs", vec![Idx::N(0)])),
+            ],
+        ),
+        CmpOp::InList,
+        list("b"),
+    ));
+    // a negation as the first token of a quantifier / call argument
+    v.push(Expr::any(QArg::Logical(Expr::not(Expr::IsTrue(f("xb"))))));
+    v.push(Expr::IsTrue(Lhs::call("isb", vec![Arg::Logical(Expr::not(Expr::IsTrue(f("t"))))])));
     v.push(Expr::cmp(f("i"), CmpOp::Ge, Rhs::Lit(Lit::Int(i64::MIN, IntForm::Dec))));
     v.push(Expr::cmp(f("i"), CmpOp::Le, Rhs::Lit(Lit::Int(0o777, IntForm::Oct))));
     v.push(Expr::cmp(f("ip"), CmpOp::Lt, Rhs::Lit(Lit::Ip("::ffff:1.2.3.4".parse().unwrap()))));
